@@ -389,3 +389,37 @@ def gen_strftime():
 
 
 FAMILIES = {'Strftime': gen_strftime}
+
+
+# ---- default-locale name tables (src/format/locales.rs, mod unlocalized) ---------------------------
+def gen_locales():
+    src = strip_comments(read('src/format/locales.rs'))
+    m = re.search(r'mod\s+unlocalized\s*\{', src)
+    if not m:
+        raise TranslateError('mod unlocalized not found')
+    e = match_close(src, m.end() - 1)
+    body = src[m.end():e]
+    out = '(* GENERATED by tools/translate_strftime.py from src/format/locales.rs (mod unlocalized) -- do not edit *)\n'
+    out += 'From Coq Require Import ZArith List.\nImport ListNotations.\nOpen Scope Z_scope.\n\n'
+    want = {'short_months': 12, 'long_months': 12, 'short_weekdays': 7, 'long_weekdays': 7, 'am_pm': 2}
+    for fn, n in want.items():
+        fb = fn_body(body, fn)
+        mm = re.search(r'&\[(.*)\]\s*\}\s*$', fb, re.S)
+        if not mm:
+            raise TranslateError('table of %s not found' % fn)
+        names = [rust_str(x) for x in split_top(mm.group(1))]
+        if len(names) != n:
+            raise TranslateError('%s: expected %d names, found %d' % (fn, n, len(names)))
+        for b in names:
+            if any(c > 127 for c in b):
+                raise TranslateError('%s: non-ASCII name' % fn)
+        out += 'Definition LOC_%s : list (list Z) := [\n  %s\n].\n' % (fn.upper(), ';\n  '.join(coq_bytes(b) for b in names))
+    fb = fn_body(body, 'decimal_point')
+    mm = re.search(r'\{\s*("[^"]*")\s*\}\s*$', fb, re.S)
+    if not mm:
+        raise TranslateError('decimal_point not found')
+    out += 'Definition LOC_DECIMAL_POINT : list Z := %s.\n' % coq_bytes(rust_str(mm.group(1)))
+    return out
+
+
+FAMILIES['Locales'] = gen_locales
